@@ -152,7 +152,7 @@ func Conclude(verifDir string, res *WorkerResult, tier string, seed int64, level
 	bySig := map[string]*agg{}
 	var order []string
 	for _, v := range res.Violations {
-		if v.Property != prop {
+		if v.Property != prop && !(len(prop) > 3 && prop[:3] == v.Property) { // a part (C25plain) run on its own reports its property's (C25) verdicts
 			res.Counters["foreign_violations/"+v.Property]++
 			continue
 		}
